@@ -552,4 +552,5 @@ func runC15(c *Ctx) {
 		}
 		c.Check(bad == "", "C15.R5", "CosmeticEngine.addRule: element-hiding rules reach the table", engAdd.Pos(), "table.addRule(rule) whenever rule.Type == CosmeticElementHiding", bad)
 	}
+	importRules(c, runC16, map[string]string{"C16.R4": "C15.R6"}, map[string]string{"C15.R6": "the flags of a cosmetic query reach the gates they are named after: Engine.GetCosmeticResult decodes CSS / GenericCSS / JS into the matching parameters of CosmeticEngine.Match (shared with C16.R4)"})
 }
